@@ -112,7 +112,8 @@ theorem clearQueue_self (s : Streams) (k : Nat) :
 elab "gk_head" : tactic => do
   relHead2 ``GK "_gk" (some ("_uk", ``UK.toGK)) (← `(tactic| first
     | with_reducible refine GK.trans ?_ (UK.toGK (setMisc_uk _ _ _ _ _ _ rfl))
-    | with_reducible refine GK.trans ?_ (UK.toGK (setCounts_uk _ _))))
+    | with_reducible refine GK.trans ?_ (UK.toGK (setCounts_uk _ _))
+    | with_reducible refine GK.trans ?_ (UK.toGK (insertNew_uk _ _ _ _))))
 
 syntax "gk_step" : tactic
 macro_rules | `(tactic| gk_step) => `(tactic| gk_head)
@@ -152,21 +153,23 @@ def OH (s : Streams) : Prop := ∀ k, OHead (s.stream k)
 theorem UK.oh {s s' : Streams} (h : UK s s') (ho : OH s) : OH s' := fun k => (h.kp k).oh (ho k)
 
 /-- from a state with `OH`: `GK`, and `OH` again (`send_reset` and its callers) -/
-def GKo (s s' : Streams) : Prop := OH s → GK s s' ∧ OH s'
+structure GKo (s s' : Streams) : Prop where
+  imp : OH s → GK s s' ∧ OH s'
 
-theorem GKo.refl (s : Streams) : GKo s s := fun h => ⟨.refl _, h⟩
+theorem GKo.refl (s : Streams) : GKo s s := ⟨fun h => ⟨.refl _, h⟩⟩
 theorem GKo.trans {a b c : Streams} (h1 : GKo a b) (h2 : GKo b c) : GKo a c :=
-  fun h => ⟨(h1 h).1.trans (h2 (h1 h).2).1, (h2 (h1 h).2).2⟩
+  ⟨fun h => ⟨(h1.imp h).1.trans (h2.imp (h1.imp h).2).1, (h2.imp (h1.imp h).2).2⟩⟩
 theorem GKo.of_fst_eq {s : Streams} {α : Type} {p : Streams × α} {a : Streams} {x : α}
     (h : p = (a, x)) (e : GKo s p.1) : GKo s a := by subst h; exact e
-theorem UK.toGKo {s s' : Streams} (h : UK s s') : GKo s s' := fun ho => ⟨h.toGK, h.oh ho⟩
+theorem UK.toGKo {s s' : Streams} (h : UK s s') : GKo s s' := ⟨fun ho => ⟨h.toGK, h.oh ho⟩⟩
 theorem panic_go (s : Streams) (m : String) : GKo s (s.panic m) := (panic_uk s m).toGKo
 theorem go_relOK : RelOK GKo := ⟨GKo.refl, GKo.trans, panic_go⟩
 
 elab "go_head" : tactic => do
   relHead2 ``GKo "_go" (some ("_uk", ``UK.toGKo)) (← `(tactic| first
     | with_reducible refine GKo.trans ?_ (UK.toGKo (setMisc_uk _ _ _ _ _ _ rfl))
-    | with_reducible refine GKo.trans ?_ (UK.toGKo (setCounts_uk _ _))))
+    | with_reducible refine GKo.trans ?_ (UK.toGKo (setCounts_uk _ _))
+    | with_reducible refine GKo.trans ?_ (UK.toGKo (insertNew_uk _ _ _ _))))
 
 syntax "go_step" : tactic
 macro_rules | `(tactic| go_step) => `(tactic| go_head)
